@@ -55,11 +55,13 @@ def _sched_calls(fi):
 def check_callers(ck):
     run = ck.func(IO, PC + "._run")
     start = ck.func(IO, PC + ".start")
-    allc = callers_of(ck.repo, "_schedule_next")
+    # whole-tree search, skipping modules whose source cannot contain the identifier at all
+    mods_ = [rel for rel, m in ck.repo.modules.items() if "_schedule_next" in m.source]
+    allc = callers_of(ck.repo, "_schedule_next", mods_)
     ck.floor("C39.schedule-sites", len(allc), 2, "callers of _schedule_next")
     for fi, c in allc:
         ck.ob("C39.schedule-sites", fi, c, fi is run or fi is start, "_schedule_next is called only from start() and _run()")
-    refs = [(fi, n) for fi, n in references_to(ck.repo, "_schedule_next") if not any(n is c.func for _f, c in allc)]
+    refs = [(fi, n) for fi, n in references_to(ck.repo, "_schedule_next", mods_) if not any(n is c.func for _f, c in allc)]
     for fi, n in refs:
         ck.ob("C39.schedule-sites", fi, n, False, "_schedule_next is not handed out as a callback")
     # in _run: only in the finally of the try that runs (and awaits) the callback
@@ -340,7 +342,7 @@ def check_chain_identity(ck):
 
 def run(ck):
     ck._orig_repo = getattr(ck, "_orig_repo", None) or ck.repo
-    ck.repo = normalized(ck.repo, NORM_MODULES)  # alias / named-boolean / temporary / setter-helper normalisation (vt/x_syncnorm.py)
+    ck.repo = normalized(ck.repo, NORM_MODULES, only=('tornado/ioloop.py',))  # alias / named-boolean / temporary / setter-helper normalisation (vt/x_syncnorm.py)
     ck.rule("C39.schedule-sites", "_schedule_next is called only from start() and from the finally block of _run (after the callback and its awaitable finished); callback errors are logged and swallowed")
     ck.rule("C39.running", "_run invokes the callback only while _running; _schedule_next arms exactly one timer while _running and none otherwise; _running has no other writers than __init__/start/stop")
     ck.rule("C39.timer", "the timer is add_timeout(_next_timeout, _run), armed after _update_next(now), its handle kept in _timeout")
